@@ -73,6 +73,7 @@ inductive LExpr where
 inductive GExpr where
   | atom (a : RA)
   | bin (l : GExpr) (op : BOp) (r : GExpr)
+  | sh (e : GExpr) (left : Bool) (k : Nat)      -- `(e) << k` / `(e) >> k` by a literal (stage 11)
   deriving Repr, DecidableEq, Inhabited
 
 /-- where the value of a sub-expression is after its code ran -/
@@ -333,8 +334,35 @@ def planCode {α : Type} (none : α) (r : Atom → α) (op : BOp) (p : Plan) : L
 def arithm {α : Type} (none : α) (r : Atom → α) (st : ES) (l : ET) (op : BOp) (rt : ET) : Option (List (Mn × α) × ET × ES) :=
   (plan st l op rt).map fun p => (planCode none r op p, if p.save then .tmp else .acc, p.st')
 
+/-! generate_shift (stage 11) on an 8-bit unsigned operand found at `t`, by a literal count 0..7 -/
+
+/-- the accumulator holds an outer operand: `PHA` first, the result handed over in the scratch cell -/
+def shSave (st : ES) (t : ET) : Bool := st.acc && t != .acc
+
+/-- `tmp_in_use` once the operand has been taken -/
+def shTmp (st : ES) (t : ET) : Bool := if t == .tmp then false else st.tmpU
+
+def shiftOK (st : ES) (t : ET) (k : Nat) : Bool :=
+  !t.isConst &&                         -- constant << constant is folded: outside the fragment
+  decide (k ≤ 7) &&                     -- 8 and more are special cases (constant 0, high-byte extraction): outside
+  !(shSave st t && shTmp st t)          -- "Code too complex": the scratch cell is taken
+
+def shSt (st : ES) (t : ET) : ES := { acc := true, tmpU := if shSave st t then true else shTmp st t }
+
+def shiftCode {α : Type} (none : α) (r : Atom → α) (st : ES) (t : ET) (left : Bool) (k : Nat) : List (Mn × α) :=
+  (if shSave st t then [(.PHA, none)] else []) ++
+  loadLeft none r t ++
+  List.replicate k ((if left then Mn.ASL else Mn.LSR), none) ++
+  (if shSave st t then [(.STA, r tmp), (.PLA, none)] else [])
+
 def genE {α : Type} (none : α) (r : Atom → α) : ES → GExpr → Option (List (Mn × α) × ET × ES)
   | st, .atom a => some ([], .atm a, st)
+  | st, .sh e left k =>
+    match genE none r st e with
+    | Option.none => Option.none
+    | some (c, t, s1) =>
+      if shiftOK s1 t k then some (c ++ shiftCode none r s1 t left k, (if shSave s1 t then .tmp else .acc), shSt s1 t)
+      else Option.none
   | st, .bin l op rr =>
     match genE none r st l with
     | Option.none => Option.none
@@ -524,8 +552,22 @@ def evalPlan (L : Layout) (σ : SrcSt) (a : Byte) (op : BOp) (p : Plan) : SrcSt 
 def evalArithm (L : Layout) (σ : SrcSt) (a : Byte) (st : ES) (l : ET) (op : BOp) (rt : ET) : Option ((SrcSt × Byte) × ET × ES) :=
   (plan st l op rt).map fun p => (evalPlan L σ a op p, if p.save then .tmp else .acc, p.st')
 
+def shVal (left : Bool) (k : Nat) (a : Byte) : Byte := if left then a <<< k else a >>> k
+
+/-- a shift on the source-level state and the accumulator -/
+def evalShift (L : Layout) (σ : SrcSt) (a : Byte) (st : ES) (t : ET) (left : Bool) (k : Nat) : SrcSt × Byte :=
+  let σ1 := if shSave st t then pushS σ a else σ
+  let a2 := shVal left k (leftVal L σ1 a t)
+  if shSave st t then pullS (setTmp L σ1 a2) else (σ1, a2)
+
 def evalE (L : Layout) : SrcSt → Byte → ES → GExpr → Option ((SrcSt × Byte) × ET × ES)
   | σ, a, st, .atom x => some ((σ, a), .atm x, st)
+  | σ, a, st, .sh e left k =>
+    match evalE L σ a st e with
+    | none => none
+    | some ((σ1, a1), t, s1) =>
+      if shiftOK s1 t k then some (evalShift L σ1 a1 s1 t left k, (if shSave s1 t then .tmp else .acc), shSt s1 t)
+      else none
   | σ, a, st, .bin l op rr =>
     match evalE L σ a st l with
     | none => none
@@ -538,6 +580,36 @@ def evalE (L : Layout) : SrcSt → Byte → ES → GExpr → Option ((SrcSt × B
 def pureE (L : Layout) (σ : SrcSt) : GExpr → Byte
   | .atom x => rval L σ x
   | .bin l op r => op.apply (pureE L σ l) (pureE L σ r)
+  | .sh e left k => shVal left k (pureE L σ e)
+
+/-- a tree whose code writes nothing the source can see: no spill, no push, no register operand through the scratch
+    cell (stage 12: such trees may be operands of comparisons) -/
+def quietE : ES → GExpr → Bool
+  | _, .atom _ => true
+  | st, .bin l op r =>
+    quietE st l &&
+    (match genE () (fun _ => ()) st l with
+     | some (_, tl, s1) =>
+       quietE s1 r &&
+       (match genE () (fun _ => ()) s1 r with
+        | some (_, tr, s2) =>
+          (match plan s2 tl op tr with
+           | some p => !p.spill && !p.save && !(opnd p.right2).isReg
+           | Option.none => false)
+        | Option.none => false)
+     | Option.none => false)
+  | st, .sh e _ _ =>
+    quietE st e && (match genE () (fun _ => ()) st e with | some (_, t, s1) => !shSave s1 t | Option.none => false)
+
+/-- the value of a tree in a state (the accumulator after its code ran) -/
+def treeVal (L : Layout) (σ : SrcSt) (e : GExpr) : Byte :=
+  match evalE L σ 0 {} e with
+  | some ((_, a'), .acc, _) => a'
+  | _ => 0
+
+def GExpr.topArithm : GExpr → Bool
+  | .bin _ _ _ => true
+  | _ => false
 
 /-- `v = e`: the accumulator at the start does not matter (`evalE_acc_irrelevant`) -/
 def exprSpec (L : Layout) (σ : SrcSt) (v : LV) (e : GExpr) : SrcSt :=
